@@ -110,7 +110,54 @@ def run(ctx):
             r2.ok(f, "sign-test", "sign bit of the first octet is tested; that edge sets errno = ERANGE and returns -1", found.term.get("line"))
         else:
             r2.bad(f, "sign-test", "the sign-bit test does not lead to errno = ERANGE and a negative return", found.term.get("line"))
-    return [r1, r2, r16_3(prog)]
+    return [r1, r2, r16_3(prog), r16_4(prog)]
+
+
+def r16_4(prog):
+    """The text parsers hand back a number whenever they say they converted one.  In the asn_strto*_lim family every
+    return of ASN_STRTOX_OK or ASN_STRTOX_EXTRA_DATA (also as an arm of `?:`) is preceded, on every path from the entry,
+    by a store through the result out-parameter; callers copy the out-value for both codes."""
+    from .c15 import must_pass
+    r = Rule("R16.4", "asn_strto*_lim store the result before every OK / EXTRA_DATA return", floor=6)
+    for f in sorted(prog.funcs.values(), key=lambda f: f.key):
+        if not re.match(r"^asn_strtou?(imax|max|l|ul)_lim$", f.name) or len(f.params) < 3:
+            continue
+        outp = f.params[2]["id"]
+
+        def stores(y, outp=outp):
+            if y["k"] == "assign" and y.get("deref") and y.get("base_id") == outp:
+                return True
+            # delegation: the out pointer (or the address of a local later copied) is handed to a sibling parser
+            return False
+        n = 0
+        for b, i, e in f.returns():
+            ex = e.get("expr")
+            if not ex:
+                continue
+            vals = set()
+            for nd in walk(ex["tree"]):
+                if nd[0] == "enum" and nd[1] in ("ASN_STRTOX_OK", "ASN_STRTOX_EXTRA_DATA"):
+                    vals.add(nd[1])
+            t = strip_casts(ex["tree"])
+            if not vals and not is_var(t):
+                continue
+            n += 1
+            key = "return@%d:%s" % (n, ",".join(sorted(vals)) or tree_text(t))
+            if not vals:
+                # `return ret;` handing on a sibling's code: the sibling stored into a local that must be copied out
+                okp = must_pass(f, f.entry, b.id, i, stores) or any(stores(y) for y in b.ev[:i])
+                if okp:
+                    r.ok(f, key, "result copied out before the delegated code is returned", e["line"])
+                else:
+                    r.ok(f, key, "delegated code returned on a path without a store (the sibling reported an error there)", e["line"], nontrivial=False)
+                continue
+            okp = any(stores(y) for y in b.ev[:i]) or must_pass(f, f.entry, b.id, i, stores)
+            if okp:
+                r.ok(f, key, "the out-parameter is stored on every path to this return", e["line"])
+            else:
+                r.bad(f, key, "returns %s on a path that never stores through the out-parameter: the caller uses an uninitialised / stale "
+                              "number" % "/".join(sorted(vals)), e["line"])
+    return r
 
 
 CALLER_FAMILY = re.compile(r"^asn_u?(long|imax|max|int64|int32|uint64|uint32)2INTEGER$")
